@@ -14,7 +14,7 @@
 # function maps to one string must always give the same match result.
 # Faults: set() of a URL the stem function rejects, iterator cancellation.
 #
-from sim.core import bounded, ABSENT, HarnessError, Violation, canon, dec_value, geometric, r, same, stream, weighted_choice
+from sim.core import sut_len, bounded, ABSENT, HarnessError, Violation, canon, dec_value, geometric, r, same, stream, weighted_choice
 
 NAME = "C11"
 
@@ -501,7 +501,7 @@ class Run(object):
                     if got is None:
                         self.fail("hierarchy", op, None, "the value stored for %r or for a longer prefix" % (u,), {"stored": u, "queried": v})
             self.stats.probe("hierarchy_law_checked")
-        self.expect("len", op, len(self.trie), len(self.model))
+        self.expect("len", op, sut_len(self.trie), len(self.model))
         if do_iter:
             got = sorted(r(v) for v in bounded(self.trie, len(self.model)))
             exp = sorted(r(v) for v in self.model.values())
@@ -715,7 +715,7 @@ class Run(object):
             stats.probe("match_lru_" + ev["as"])
             stats.event("%s|match_lru|%s|%s" % (ev.get("c"), canon(stems), ev["as"]))
         elif op == "len":
-            self.expect("len", op, len(self.trie), len(self.model))
+            self.expect("len", op, sut_len(self.trie), len(self.model))
             stats.event("%s|len|%d" % (ev.get("c"), len(self.model)))
         elif op == "iter_open":
             if ev["it"] in self.iters:
